@@ -122,7 +122,11 @@ INTERVALS_T = [(1e-300, 0.0), (-1e300, 1e300), (1.0, 1e6), (-0.1, 0.2)]
 INTERVALS_SMALL_N = [(5.0, 5.0 + 1e-9), (1e10, 1e10 + 1.0),      # n <= 20 only
                      # narrow windows at large, non-dyadic offsets (a Julian-date window, a frequency band): the
                      # half width must not be taken from a rounded midpoint
-                     (1e6 + 0.1, 1e6 + 0.1 + 1e-3), (123456.789, 123456.79), (2459000.5123, 2459000.5124)]
+                     (1e6 + 0.1, 1e6 + 0.1 + 1e-3), (123456.789, 123456.79), (2459000.5123, 2459000.5124),
+                     # widths whose half is a SUBNORMAL number (below 2.2e-308), with subnormal and with normal end points:
+                     # a process in flush-to-zero mode (an extension linked with -ffast-math switches the whole process
+                     # to it when it is loaded) collapses these rules to zero
+                     (0.0, 1e-310), (1e-308, 3e-308), (-2e-308, 2e-308), (3e-308, 1e-308)]
 SMALL_N = 20
 
 EXACT_NMAX = 30
